@@ -379,6 +379,74 @@ func writesReply(v InvObs, id string) bool {
 	return false
 }
 
+// ElemFate is what the reference reading expects to happen to a top-level
+// element: handed to the handler (Inv = index of the invocation) or, being the
+// response to an outstanding request of this session, offered to its waiter.
+type ElemFate struct {
+	Div   bool
+	Pend  int // index into Spec.Pend when Div
+	Taken bool
+	Inv   int
+}
+
+func typeOf(t STok) string { v, _ := t.AttrVal("type"); return v }
+
+// ExpectedFates restates the rule for outstanding requests: only an element of
+// type result or error whose id is that of an outstanding call, and whose name
+// is the name of what that call sent, goes to the waiter; a waiter that has
+// received its response is no longer outstanding; one whose context is done
+// does not take it (the element is dropped) and stays registered.
+func ExpectedFates(sp Spec, exp Expect) []ElemFate {
+	out := make([]ElemFate, len(exp.Elems))
+	gone := make([]bool, len(sp.Pend))
+	inv := 0
+	for i, el := range exp.Elems {
+		d := -1
+		if typ := typeOf(el.Start); typ == "result" || typ == "error" {
+			id := idOf(el.Start)
+			for k, ps := range sp.Pend {
+				if gone[k] || ps.ID != id {
+					continue
+				}
+				if ps.Kind == el.Start.Local && (ps.Space == el.Start.Space || ps.Space == "") {
+					d = k
+				}
+				break // the table has one entry per id
+			}
+		}
+		if d >= 0 {
+			out[i] = ElemFate{Div: true, Pend: d, Taken: !sp.Pend[d].Cancel, Inv: -1}
+			if !sp.Pend[d].Cancel {
+				gone[d] = true
+			}
+			continue
+		}
+		out[i] = ElemFate{Inv: inv}
+		inv++
+	}
+	return out
+}
+
+// sameElement: the invocation is for this element (name, id and type; the rest is C08's business)
+func sameElement(shown, el STok) bool {
+	return shown.Space == el.Space && shown.Local == el.Local && idOf(shown) == idOf(el) && typeOf(shown) == typeOf(el)
+}
+
+// DivertedDirty: an element expected to go to a waiter holds a stream-level
+// construct or is cut short (outside the model's scope: see design/C07.md).
+func DivertedDirty(sp Spec) bool {
+	if len(sp.Pend) == 0 {
+		return false
+	}
+	exp := Walk(Tokenize([]byte(sp.Script), sp.NS))
+	for i, f := range ExpectedFates(sp, exp) {
+		if f.Div && (exp.Elems[i].DirtyAt >= 0 || exp.Elems[i].Truncated) {
+			return true
+		}
+	}
+	return false
+}
+
 // CheckC07 evaluates the reply rule on an observation.
 func CheckC07(sp Spec, o Obs) []Finding {
 	var fs []Finding
@@ -399,11 +467,78 @@ func CheckC07(sp Spec, o Obs) []Finding {
 		}
 	}
 	exp := Walk(Tokenize([]byte(sp.Script), sp.NS))
-	for j, v := range o.Invs {
-		if j >= len(exp.Elems) {
+	// Outstanding requests: a waiter is only ever handed a response; every other
+	// element, a get/set IQ with a colliding id included, goes to the handler.
+	for _, d := range o.Divs {
+		if st := d.Start(); d.Taken && st != nil {
+			if typ := typeOf(*st); typ != "result" && typ != "error" {
+				key := "serve/element-diverted-to-waiter"
+				if isRequest(*st) {
+					key = "serve/request-diverted-to-waiter"
+				}
+				add(key, "the call waiting for the response to id %q was handed <%s type=%q id=%q>: the handler never saw it and it is not answered", d.ID, st.Local, typ, idOf(*st))
+				return fs
+			}
+		}
+	}
+	fates := ExpectedFates(sp, exp)
+	var elemOfInv []int
+	nd := 0
+	for ei, el := range exp.Elems {
+		j := len(elemOfInv)
+		if fates[ei].Div {
+			if nd < len(o.Divs) {
+				nd++
+				continue
+			}
+			if !(j < len(o.Invs) && sameElement(o.Invs[j].Start, el.Start)) {
+				break // Serve stopped before
+			}
+			// handed to the handler after all: not this property's business
+		}
+		if j >= len(o.Invs) {
+			if nd < len(o.Divs) {
+				key := "serve/element-diverted-to-waiter"
+				if isRequest(el.Start) {
+					key = "serve/request-diverted-to-waiter"
+				}
+				add(key, "<%s type=%q id=%q> was offered to a waiting call instead of the handler", el.Start.Local, typeOf(el.Start), idOf(el.Start))
+				return fs
+			}
 			break
 		}
-		el := exp.Elems[j]
+		if !sameElement(o.Invs[j].Start, el.Start) {
+			key := "serve/handler-not-invoked"
+			if nd < len(o.Divs) {
+				key = "serve/element-diverted-to-waiter"
+				if isRequest(el.Start) {
+					key = "serve/request-diverted-to-waiter"
+				}
+			}
+			add(key, "<%s type=%q id=%q> did not reach the handler (invocation %d is for <%s type=%q id=%q>; %d elements were offered to waiting calls)",
+				el.Start.Local, typeOf(el.Start), idOf(el.Start), j, o.Invs[j].Start.Local, typeOf(o.Invs[j].Start), idOf(o.Invs[j].Start), len(o.Divs))
+			return fs
+		}
+		elemOfInv = append(elemOfInv, ei)
+	}
+	// a waiter that was not offered a response is still waiting
+	for k, ps := range sp.Pend {
+		expectGot := false
+		for ei, f := range fates {
+			if f.Div && f.Pend == k && f.Taken && ei < len(exp.Elems) {
+				expectGot = true
+			}
+		}
+		if k < len(o.Waiting) && !o.Waiting[k] && !expectGot {
+			add("serve/waiter-got-unexpected-element", "the call waiting for id %q received an element although no response to it arrived", ps.ID)
+			return fs
+		}
+	}
+	for j, v := range o.Invs {
+		if j >= len(elemOfInv) {
+			break
+		}
+		el := exp.Elems[elemOfInv[j]]
 		end := len(o.Out)
 		if j+1 < len(o.Invs) {
 			end = o.Invs[j+1].OutOff
